@@ -1554,9 +1554,59 @@ def apply_edit(obj, spec, e):
     elif f == "name":
         obj.name = e["v"]
         sp["name"] = e["v"]
+    # ---- size-changing edits (records / atoms / bonds appear or disappear between two writes)
+    elif f in ("append", "extend[list]", "extend[ensemble]"):
+        n = len(sp["atoms"])
+        geoms = []
+        for fr in e["v"]:
+            g = Molecule([Atom(Element(a[0])) for a in sp["atoms"]], coords=np.array(fr["xyz"], dtype=float).reshape(n, 3))
+            g.atomic_charges = np.array(fr["q"], dtype=float).reshape(n)
+            geoms.append(g)
+        if f == "append":
+            obj.append(geoms[0])
+        elif f == "extend[list]":
+            obj.extend(geoms)
+        else:
+            obj.extend(ConformerEnsemble(geoms))
+        sp["frames"] = sp["frames"] + [{"xyz": [list(p) for p in fr["xyz"]], "q": list(fr["q"])} for fr in e["v"]]
+    elif f == "add_atom":
+        z, lab, xyz, q = e["v"]
+        if kind == "M":
+            obj.add_atom(Atom(Element(z), label=lab), list(xyz), charge=q)
+        else:
+            obj.add_atom(Atom(Element(z), label=lab), list(xyz))
+        sp["atoms"].append([z, lab, REG, UNKG])
+        sp["frames"][0]["xyz"].append(list(xyz))
+        sp["frames"][0]["q"].append(q)
+    elif f == "del_atom":
+        i = e["i"]
+        obj.del_atom(i)
+        sp["atoms"].pop(i)
+        sp["frames"][0]["xyz"].pop(i)
+        sp["frames"][0]["q"].pop(i)
+        sp["bonds"] = [[a - (a > i), b - (b > i), t] for a, b, t in sp["bonds"] if i not in (a, b)]
+    elif f == "connect":
+        i, j, t = e["v"]
+        obj.connect(i, j, btype=BondType(t))
+        sp["bonds"].append([i, j, t])
+    elif f == "del_bond":
+        obj.del_bond(obj.bonds[e["j"]])
+        sp["bonds"].pop(e["j"])
     else:
         raise HarnessError(f"unknown edit {e!r}")
     return sp
+
+
+def size_edits(kind, n_atoms, n_bonds, frames):
+    """size-changing edits for a structure of this kind (harness model in apply_edit)"""
+    if kind == "E":
+        f1 = {"xyz": [[p[1] + 1.0, p[2] - 2.0, p[0]] for p in frames[0]["xyz"]], "q": [0.375 - x for x in frames[0]["q"]]}
+        f2 = {"xyz": [[p[2], p[0] + 3.5, p[1]] for p in frames[0]["xyz"]], "q": [x + 0.0625 for x in frames[0]["q"]]}
+        return [{"f": "append", "v": [f1]}, {"f": "extend[list]", "v": [f1, f2]}, {"f": "extend[ensemble]", "v": [f2, f1]}]
+    ed = [{"f": "add_atom", "v": [17, "Cl9", [3.25, -4.5, 0.125], -0.375]}, {"f": "add_atom", "v": [1, None, [0.5, 0.25, -8.0], 0.0]}]
+    ed += [{"f": "del_atom", "i": i} for i in range(n_atoms)]
+    ed += [{"f": "del_bond", "j": j} for j in range(n_bonds)]
+    return ed
 
 
 def bond_type_column(text):
@@ -1577,7 +1627,9 @@ def check_write_edit_write(ctx, spec, first, edits):
     tmpw = Path(ctx.scratch) / f"c07-{os.getpid()}-w.mol2"
     case = {"layer": "WE", "spec": spec, "first": first, "edits": edits}
     kn = KINDNAME[spec["kind"]]
-    tag = "after[write+edit-in-place]|"  # (the edited fields are in the case and in the message, not in the signature)
+    # (the edited fields are in the case and in the message, not in the signature; size-changing edits are their own input class)
+    SIZE = ("append", "extend[list]", "extend[ensemble]", "add_atom", "del_atom", "connect", "del_bond")
+    tag = "after[write+grow-or-shrink]|" if any(e["f"] in SIZE for e in edits) else "after[write+edit-in-place]|"
     ctx.count(evaluations=1, states=1, traces=1)
     ctx.nontrivial(("WE", digest(case)))
     try:
@@ -1589,6 +1641,9 @@ def check_write_edit_write(ctx, spec, first, edits):
                     a.get_mol2_type()
                 for b in obj.bonds:
                     b.get_mol2_type()
+            elif first == "iterate":
+                for _c in obj:
+                    pass
             else:
                 do_write(obj, first, tmpw)
         except Exception:
@@ -1683,6 +1738,17 @@ def repro_we(spec, first, edits):
             lines.append(f"m.name = {e['v']!r}")
         elif f == "coordinate":
             lines.append(f"m.coords[{(str(e['fr']) + ', ') if spec['kind'] == 'E' else ''}{e['i']}, {e['c']}] = {e['v']}")
+        elif f in ("append", "extend[list]", "extend[ensemble]"):
+            lines.append(f"new = [ml.Molecule(list(m.elements), coords=np.array(fr['xyz'], dtype=float)) for fr in {e['v']!r}]")
+            lines.append({"append": "m.append(new[0])", "extend[list]": "m.extend(new)", "extend[ensemble]": "m.extend(ml.ConformerEnsemble(new))"}[f] + "  # the ensemble grows after its first write")
+        elif f == "add_atom":
+            lines.append(f"m.add_atom(Atom(Element({e['v'][0]}), label={e['v'][1]!r}), {e['v'][2]!r}" + (f", charge={e['v'][3]!r})" if spec["kind"] == "M" else ")"))
+        elif f == "del_atom":
+            lines.append(f"m.del_atom({e['i']})")
+        elif f == "connect":
+            lines.append(f"m.connect({e['v'][0]}, {e['v'][1]}, btype=BondType({e['v'][2]}))")
+        elif f == "del_bond":
+            lines.append(f"m.del_bond(m.bonds[{e['j']}])")
         elif f == "charge" and spec["kind"] != "S":
             lines.append(f"m.atomic_charges[{(str(e['fr']) + ', ') if spec['kind'] == 'E' else ''}{e['i']}] = {e['v']}")
     lines += ["s = io.StringIO(); m.dump_mol2(s); second = s.getvalue()", "print(first); print(second)  # the second text must describe the edited object"]
@@ -1705,12 +1771,197 @@ def gen_WE(seed, thorough):
         for first in firsts:
             for e in eds:
                 yield spec, first, [e]
+        # size-changing edits between the two writes (and two of them in a row, and followed by an in-place edit)
+        sz = size_edits(kind, 3, 3, frames)
+        sfirsts = firsts + (["iterate"] if kind == "E" else [])
+        for first in sfirsts:
+            for e in sz:
+                yield spec, first, [e]
+        for a in sz:
+            for b in sz:
+                if kind == "E" or (a["f"], b["f"]) in (("add_atom", "add_atom"), ("add_atom", "del_atom"), ("add_atom", "del_bond"), ("del_bond", "add_atom"), ("del_bond", "del_bond")) and a is not b and not (b["f"] == "del_bond" and a["f"] == "del_bond" and b["j"] >= 2):
+                    yield spec, sfirsts[0], [a, b]
+        if kind != "E":
+            yield spec, firsts[0], [{"f": "add_atom", "v": [17, "Cl9", [3.25, -4.5, 0.125], -0.375]}, {"f": "connect", "v": [3, 0, BT["Single"]]}]
+            yield spec, firsts[0], [{"f": "del_bond", "j": 0}, {"f": "connect", "v": [1, 0, BT["Triple"]]}]
+        for a in sz[:3]:
+            yield spec, firsts[0], [a, {"f": "name", "v": "renamed one"}]
         # two edits in a row (thorough: all ordered pairs; quick: every edit followed by an edit of another field of atom 0 / bond 0)
         seconds = eds if thorough else [e for e in eds if e.get("i", e.get("j", 0)) == 0]
         for a in eds:
             for b in seconds:
                 if a["f"] != b["f"]:
                     yield spec, firsts[0], [a, b]
+
+
+# =================================================================================================
+# LC : character alphabet of the free-text fields that reach the mol2 text (atom label, molecule name)
+#      alphabet = every printable non-blank ASCII character (all 94 survive on the reference tree - measured
+#      when the layer was written; blanks are out of scope: they separate the fields of an ATOM line and are
+#      stripped at the ends of the name line)
+# =================================================================================================
+PRINTABLE = [chr(c) for c in range(33, 127)]
+PUNCT = [c for c in PRINTABLE if not c.isalnum()]
+CHARNAME = {
+    "!": "exclam", '"': "dquote", "#": "hash", "$": "dollar", "%": "percent", "&": "amp", "'": "quote", "(": "lparen", ")": "rparen", "*": "star",
+    "+": "plus", ",": "comma", "-": "minus", ".": "dot", "/": "slash", ":": "colon", ";": "semicolon", "<": "lt", "=": "eq", ">": "gt", "?": "question",
+    "@": "at", "[": "lbracket", "\\": "backslash", "]": "rbracket", "^": "caret", "_": "underscore", "`": "backquote", "{": "lbrace", "|": "pipe", "}": "rbrace", "~": "tilde",
+}
+
+
+def lc_labels():
+    out = []
+    for c in PRINTABLE:
+        out += [c, c + "x1", "x" + c + "1", "x1" + c]
+    for a in PUNCT:
+        for b in PUNCT:
+            out += [a + b, "x" + a + b]
+    out += ["C5'", "H5''", 'C"5"', "H\\1", "O2*", "N(1)", "C[a]"]
+    return list(dict.fromkeys(out))
+
+
+def lc_names():
+    out = []
+    for c in PRINTABLE:
+        out += [c, c + "x1", "x" + c + "1", "x1" + c, "a " + c + " b"]
+    for a in PUNCT:
+        for b in PUNCT:
+            out += ["m" + a + b + "n"]
+    out += ["2'-deoxy", 'the "best" one', "a\\b", "50% (w/w)", "x" * 120]
+    return list(dict.fromkeys(out))
+
+
+def specials_of(text):
+    return sorted({c for c in text if c in CHARNAME})
+
+
+_LC_ALONE: dict = {}
+
+
+def lc_roundtrip(ctx, kind, name, labels, xyzs):
+    """-> (symptoms [(sym, detail)], per-atom failing indices) through the primary entry points"""
+    n = len(labels)
+    atoms = [(6, lab, REG, UNKG) for lab in labels]
+    frames = [{"xyz": xyzs, "q": [0.125 * ((i % 5) - 2) for i in range(n)]}]
+    spec = mkspec(kind, name, atoms, frames, [(0, n - 1, BT["Single"])] if n > 1 else [])
+    tmp = Path(ctx.scratch) / f"c07-{os.getpid()}-lc.mol2"
+    obj, ref = build(spec)
+    out = []
+    ctx.count(transitions=1)
+    try:
+        t1 = do_write(obj, "dump_mol2[StringIO]", tmp)
+    except Exception as e:
+        return [(f"write-raised-{exc(e)}", f"{exc(e)}: {e}")], spec
+    rname = KINDNAME[kind] + ".loads_mol2"
+    ctx.count(transitions=1)
+    try:
+        r = do_read(rname, t1, tmp)
+    except Exception as e:
+        return [(f"read-raised-{exc(e)}", f"the reader rejects molli's own text: {exc(e)}: {e}")], spec
+    out += observe(ref, rname, r)
+    ctx.count(transitions=1)
+    try:
+        t2 = do_write(r, "dump_mol2[StringIO]", tmp)
+        out += [(f"not-a-fixed-point:{cl}", f"second write differs ({cl})") for cl in classify_text_diff(t1, t2)]
+    except Exception as e:
+        out.append((f"second-write-raised-{exc(e)}", f"{exc(e)}: {e}"))
+    # the name must also survive as the name of a LATER block of a multi-molecule text
+    aname = KINDNAME["M" if kind == "E" else kind] + ".loads_all_mol2"
+    ctx.count(transitions=1)
+    try:
+        rr = do_read(aname, t1 + t1, tmp)
+        if len(rr) != 2 * len(ref["frames"]):
+            out.append(("molecule-count-changed-when-the-text-is-doubled", f"{len(rr)} molecules read from the doubled text"))
+        elif any(m.name != name for m in rr):
+            out.append(("name-changed-in-a-later-block", f"names {[m.name for m in rr]!r}, written {name!r}"))
+    except Exception as e:
+        out.append((f"doubled-text-read-raised-{exc(e)}", f"{exc(e)}: {e}"))
+    clear_bond_cache()
+    return out, spec
+
+
+def lc_alone(ctx, kind, field, c):
+    """does the single special character c break the field on its own (memoised per process)?"""
+    key = (kind, field, c)
+    if key not in _LC_ALONE:
+        bad = False
+        for t in (c + "x1", "x" + c + "1", "x1" + c):
+            try:
+                sy, _ = lc_roundtrip(ctx, kind, t if field == "name" else "nm", [t] if field == "label" else ["C1"], [[1.0, 2.0, 3.0]])
+            except UnderTestDeviation:
+                sy = [("setup", "")]
+            bad = bad or bool(sy)
+        _LC_ALONE[key] = bad
+    return _LC_ALONE[key]
+
+
+def lc_report(ctx, kind, field, text, syms, spec):
+    sp = specials_of(text)
+    culprits = [c for c in sp if lc_alone(ctx, kind, field, c)] or sp
+    cls = "+".join(CHARNAME[c] for c in culprits) if culprits else "plain"
+    if len(culprits) > 2:
+        cls = "several"
+    names = {s_ for s_, _ in syms}
+    if "label-changed" in names or "name-changed" in names:
+        # the second write of a changed label / name differs as a consequence: one symptom, not two
+        syms = [(s_, d) for s_, d in syms if s_ not in ("not-a-fixed-point:ATOM.label", "not-a-fixed-point:MOLECULE.name")]
+    for sym, d in syms:
+        ctx.violation(
+            f"free-text|{field}|char[{cls}]|{sym}",
+            f"{KINDNAME[kind]} with {field} {text!r}: {d}",
+            {"layer": "LC", "kind": kind, "field": field, "text": text, "xyz": spec["frames"][0]["xyz"]},
+            repro=(
+                "import molli as ml\nfrom molli.chem import Atom\n"
+                + (f"m = ml.Molecule([Atom('C', label={text!r})], name='nm', coords=[[1, 2, 3]])\n" if field == "label" else f"m = ml.Molecule([Atom('C', label='C1')], name={text!r}, coords=[[1, 2, 3]])\n")
+                + "t = m.dumps_mol2(); print(t)\nr = ml.Molecule.loads_mol2(t); print(repr(r.name), [a.label for a in r.atoms])"
+            ),
+        )
+
+
+LC_COORDS = [[0.0, 1.5, -2.25], [-123456.789, 1e7, 99999.9999995], [1e7, -123456.789, 0.1234565], [99999.9999995, 0.0, -0.0000004], [1.5, 1.5, 1.5]]
+
+
+def lc_cases(seed):
+    """('label', [labels], [xyz]) chunks of 100 atoms and ('name', name) cases"""
+    labs = rot(lc_labels(), seed * 37)
+    items = [(lab, LC_COORDS[i % len(LC_COORDS)]) for i, lab in enumerate(labs)]
+    # long labels (1..12 characters) x coordinate magnitudes: fields must not glue together
+    for k in range(1, 13):
+        for lab in ("L" * k, "L" * (k - 1) + "'", "9" * k):
+            for xyz in LC_COORDS:
+                items.append((lab, xyz))
+    out = [("label", [it[0] for it in items[i : i + 100]], [it[1] for it in items[i : i + 100]]) for i in range(0, len(items), 100)]
+    out += [("name", nm, None) for nm in rot(lc_names(), seed * 41)]
+    return out
+
+
+def check_lc(ctx, kind, case):
+    field = case[0]
+    ctx.count(evaluations=1, states=1, traces=1)
+    ctx.nontrivial(("LC", kind, field, digest(case[1])))
+    try:
+        if field == "name":
+            name = case[1]
+            syms, spec = lc_roundtrip(ctx, kind, name, ["C1"], [[1.0, 2.0, 3.0]])
+            ctx.outcome(("LC", "name", tuple(s_ for s_, _ in syms)))
+            if syms:
+                lc_report(ctx, kind, "name", name, syms, spec)
+            return
+        labels, xyzs = case[1], case[2]
+        syms, spec = lc_roundtrip(ctx, kind, "labels", labels, xyzs)
+        ctx.outcome(("LC", "label", digest(labels), tuple(s_ for s_, _ in syms)))
+        if syms:
+            # localise: every label of the chunk on its own
+            hit = False
+            for lab, xyz in zip(labels, xyzs):
+                sy, sp1 = lc_roundtrip(ctx, kind, "labels", [lab], [xyz])
+                if sy:
+                    hit = True
+                    lc_report(ctx, kind, "label", lab, sy, sp1)
+            if not hit:
+                ctx.violation(f"free-text|label|only-in-combination|{syms[0][0]}", f"{KINDNAME[kind]} with labels {labels[:5]}...: {syms[0][1]}", {"layer": "LC", "kind": kind, "field": "labels", "labels": labels, "xyz": xyzs})
+    except UnderTestDeviation as e:
+        ctx.violation(f"free-text|{field}|setup-{e.symptom}", e.detail, {"layer": "LC", "kind": kind, "field": field, "text": case[1] if field == "name" else None, "labels": case[1] if field != "name" else None, "xyz": case[2]})
 
 
 # =================================================================================================
@@ -1763,6 +2014,13 @@ def _part_inner(ctx, part):
             for b in range(m):
                 check_tb(ctx, "M", [reps[a], reps[b]], seed, bonded=True)
                 ctx.add_note("cases_TB2")
+        return
+    if layer == "LC":
+        cases = lc_cases(seed)
+        for idx in range(i, len(cases), nparts):
+            for kind in ("M", "S", "E"):
+                check_lc(ctx, kind, cases[idx])
+                ctx.add_note("cases_LC")
         return
     if layer == "TA2":
         reps = rot(class_representatives(), seed)
@@ -1845,6 +2103,10 @@ def run(ctx):
         "fixed point = the text of the first write is reproduced byte for byte by writing what the same class read from it",
         "loads_mol2/load_mol2 of a multi-molecule text return the first molecule (documented behaviour); loads_all/ConformerEnsemble return all, in order",
         "an ensemble with 0 conformers has no mol2 text and is out of scope",
+        "layer LC: free-text alphabet = every printable non-blank ASCII character (33..126) in atom labels (alone, at the start / middle / end, every ordered pair of "
+        "the 32 punctuation characters, labels of 1..12 characters next to coordinates of every magnitude) and in molecule names (same, plus an inner blank); all 94 "
+        "characters round-trip on the reference tree; excluded: blanks in labels (they separate the fields of an ATOM line) and leading/trailing blanks or an empty "
+        "name (the reader strips lines); the writer emits no other free-text field (substructure name is the constant UNL1)",
         "write - edit in place - write (layers TA2, BL bond pairs, WE): whatever a writer derives from an object follows the object's CURRENT state: "
         "get_mol2_type of an edited atom/bond equals that of a fresh atom/bond with the same fields; a structure written once, edited in place (element, atype, "
         "geom, label, bond type, coordinate, charge, name) and written again reads back as the edited structure, and its type columns are those of fresh atoms/bonds "
@@ -1880,7 +2142,7 @@ def run(ctx):
     ctx.note("property_text_says_triples", "119 x 22 x 17; the tree under test has %d x %d x %d" % (nE, nT, nG))
     np_ = 16 if thorough else 8
     parts = []
-    for layer in ("TA", "TA2", "TB", "BL", "S0", "TC", "S4", "SH", "WE", "HW", "S2", "S1", "S3"):
+    for layer in ("TA", "TA2", "TB", "BL", "S0", "TC", "S4", "SH", "LC", "WE", "HW", "S2", "S1", "S3"):
         n = 1 if layer in ("S0",) else np_ * (4 if layer in ("S1", "S3", "S2") or (thorough and layer == "HW") else 1)
         parts += [(layer, i, n) for i in range(n)]
     if thorough:
@@ -1915,6 +2177,13 @@ def replay(ctx, case):
         check_triple(ctx, tuple(int(x) for x in case["triple"]))
     elif layer == "TB":
         check_tb(ctx, case["kind"], [tuple(int(x) for x in t) for t in case["triples"]], ctx.seed, bonded=bool(case.get("bonded")))
+    elif layer == "LC":
+        if case["field"] == "name":
+            check_lc(ctx, case["kind"], ("name", case["text"], None))
+        elif case["field"] == "label":
+            check_lc(ctx, case["kind"], ("label", [case["text"]], [[fl(c) for c in p] for p in case.get("xyz") or [[1.0, 2.0, 3.0]]]))
+        else:
+            check_lc(ctx, case["kind"], ("label", case["labels"], [[fl(c) for c in p] for p in case["xyz"]]))
     elif layer == "TA2":
         check_retype(ctx, tuple(int(x) for x in case["t1"]), tuple(int(x) for x in case["t2"]), case["via"])
     elif layer == "BL2":
